@@ -18,8 +18,8 @@ using namespace cm;
 using hz::Plan; using hz::Result; using hz::Violation;
 namespace be = amgcl::backend;
 
-enum { T_FLOAT, T_DOUBLE, T_LDOUBLE, T_COMPLEX, T_BLOCK2, T_BLOCK_CRS, T_HYBRID, T_EIGEN, NTYPE };
-static const char *type_names[] = { "float", "double", "long_double", "complex", "block2x2", "block_crs", "builtin_hybrid", "eigen" };
+enum { T_FLOAT, T_DOUBLE, T_LDOUBLE, T_COMPLEX, T_BLOCK2, T_BLOCK_CRS, T_HYBRID, T_EIGEN, T_EIGEN_COMPLEX, NTYPE };
+static const char *type_names[] = { "float", "double", "long_double", "complex", "block2x2", "block_crs", "builtin_hybrid", "eigen", "eigen_complex" };
 
 template <class T> struct mk { static T num(long re, long) { return (T)re; } static T poison(int k) { return k == 0 ? std::numeric_limits<T>::quiet_NaN() : k == 1 ? std::numeric_limits<T>::infinity() : -std::numeric_limits<T>::infinity(); } };
 template <> struct mk<std::complex<double> > { typedef std::complex<double> T; static T num(long re, long im) { return T((double)re, (double)im); } static T poison(int k) { double q = mk<double>::poison(k); return T(q, q); } };
@@ -169,33 +169,36 @@ static void run_block_crs(Ctx &c) {
     if (n % bs) c.res.counts["size_not_divisible_by_block"]++;
 }
 
-// Eigen backend ---------------------------------------------------------------------------------------
+// Eigen backend (real and complex values) -------------------------------------------------------------
+template <class T>
 static void run_eigen(Ctx &c) {
     const long n = c.n; if (n < 1) return;
-    typedef be::eigen<double> EB;
+    typedef be::eigen<T> EB; typedef Eigen::Matrix<T, Eigen::Dynamic, 1> Vec;
     gen::Csr A = gen::make_rect(n, n, (uint64_t)c.p.get("mseed"), (int)c.p.get("density"), true, false, false);
-    auto M = to_crs(A); be::sort_rows(*M);
-    auto E = EB::copy_matrix(M, EB::params());
-    Eigen::VectorXd x(n), y(n), out(n), z(n);
-    for (long i = 0; i < n; ++i) { x[i] = (double)c.r.range(-8, 8); y[i] = (double)c.r.range(-8, 8); z[i] = (double)c.r.range(-8, 8); }
-    auto Ax = [&](long i) { double s = 0; for (ptrdiff_t j = A.ptr[i]; j < A.ptr[i+1]; ++j) s += A.val[j] * x[A.col[j]]; return s; };
-    double al = (double)c.p.get("alpha"), bt = (double)c.p.get("beta");
-    for (long i = 0; i < n; ++i) out[i] = mk<double>::poison((int)i % 3);
-    c.res.faults["poisoned_output"]++;
-    be::spmv(al, *E, x, 0.0, out); for (long i = 0; i < n; ++i) if (out[i] != al * Ax(i)) { c.fail("spmv", "beta-zero-ignores-output", fmt("row %ld", i)); break; }
-    out = y; be::spmv(al, *E, x, bt, out); for (long i = 0; i < n; ++i) if (out[i] != al * Ax(i) + bt * y[i]) { c.fail("spmv", "formula", fmt("row %ld", i)); break; }
-    for (long i = 0; i < n; ++i) out[i] = mk<double>::poison((int)i % 3);
-    be::residual(y, *E, x, out); for (long i = 0; i < n; ++i) if (out[i] != y[i] - Ax(i)) { c.fail("residual", "formula", fmt("row %ld", i)); break; }
-    for (long i = 0; i < n; ++i) out[i] = mk<double>::poison((int)i % 3);
-    be::axpby(al, y, 0.0, out); for (long i = 0; i < n; ++i) if (out[i] != al * y[i]) { c.fail("axpby", "b-zero-ignores-output", fmt("element %ld", i)); break; }
-    for (long i = 0; i < n; ++i) out[i] = mk<double>::poison((int)i % 3);
-    be::axpbypcz(al, y, bt, z, 0.0, out); for (long i = 0; i < n; ++i) if (out[i] != al * y[i] + bt * z[i]) { c.fail("axpbypcz", "c-zero-ignores-output", fmt("element %ld", i)); break; }
-    for (long i = 0; i < n; ++i) out[i] = mk<double>::poison((int)i % 3);
-    be::vmul(al, y, z, 0.0, out); for (long i = 0; i < n; ++i) if (out[i] != al * y[i] * z[i]) { c.fail("vmul", "b-zero-ignores-output", fmt("element %ld", i)); break; }
-    be::copy(y, out); for (long i = 0; i < n; ++i) if (out[i] != y[i]) { c.fail("copy", "formula", fmt("element %ld", i)); break; }
-    be::clear(out); for (long i = 0; i < n; ++i) if (out[i] != 0) { c.fail("clear", "formula", fmt("element %ld", i)); break; }
-    double ip = be::inner_product(y, z), want = 0; for (long i = 0; i < n; ++i) want += y[i] * z[i];
-    if (ip != want) c.fail("inner_product", "formula", "eigen vectors");
+    auto M = std::make_shared<be::crs<T> >(); M->set_size(n, n, false); for (long i = 0; i <= n; ++i) M->ptr[i] = A.ptr[i]; M->set_nonzeros(A.nnz());
+    for (size_t j = 0; j < A.nnz(); ++j) { M->col[j] = A.col[j]; M->val[j] = mk<T>::num((long)A.val[j], c.r.range(-2, 2)); }
+    be::sort_rows(*M);
+    auto E = EB::copy_matrix(M, typename EB::params());
+    Vec x(n), y(n), out(n), z(n);
+    for (long i = 0; i < n; ++i) { x[i] = mk<T>::num(c.r.range(-8, 8), c.r.range(-3, 3)); y[i] = mk<T>::num(c.r.range(-8, 8), c.r.range(-3, 3)); z[i] = mk<T>::num(c.r.range(-8, 8), c.r.range(-3, 3)); }
+    auto Ax = [&](long i) { T s = T(); for (ptrdiff_t j = M->ptr[i]; j < M->ptr[i+1]; ++j) s += M->val[j] * x[M->col[j]]; return s; };
+    typedef typename amgcl::math::scalar_of<T>::type S;
+    S al = (S)c.p.get("alpha"), bt = (S)c.p.get("beta");
+    auto poison = [&]() { for (long i = 0; i < n; ++i) out[i] = mk<T>::poison((int)i % 3); };
+    poison(); c.res.faults["poisoned_output"]++;
+    be::spmv(al, *E, x, S(0), out); for (long i = 0; i < n; ++i) if (!eq(T(out[i]), al * Ax(i))) { c.fail("spmv", "beta-zero-ignores-output", fmt("row %ld", i)); break; }
+    out = y; be::spmv(al, *E, x, bt, out); for (long i = 0; i < n; ++i) if (!eq(T(out[i]), al * Ax(i) + bt * y[i])) { c.fail("spmv", "formula", fmt("row %ld", i)); break; }
+    poison(); be::residual(y, *E, x, out); for (long i = 0; i < n; ++i) if (!eq(T(out[i]), y[i] - Ax(i))) { c.fail("residual", "formula", fmt("row %ld", i)); break; }
+    poison(); be::axpby(al, y, S(0), out); for (long i = 0; i < n; ++i) if (!eq(T(out[i]), al * y[i])) { c.fail("axpby", "b-zero-ignores-output", fmt("element %ld", i)); break; }
+    out = z; be::axpby(al, y, bt, out); for (long i = 0; i < n; ++i) if (!eq(T(out[i]), al * y[i] + bt * z[i])) { c.fail("axpby", "formula", fmt("element %ld", i)); break; }
+    poison(); be::axpbypcz(al, y, bt, z, S(0), out); for (long i = 0; i < n; ++i) if (!eq(T(out[i]), al * y[i] + bt * z[i])) { c.fail("axpbypcz", "c-zero-ignores-output", fmt("element %ld", i)); break; }
+    out = x; be::axpbypcz(al, y, bt, z, S(2), out); for (long i = 0; i < n; ++i) if (!eq(T(out[i]), al * y[i] + bt * z[i] + S(2) * x[i])) { c.fail("axpbypcz", "formula", fmt("element %ld", i)); break; }
+    poison(); be::vmul(al, y, z, S(0), out); for (long i = 0; i < n; ++i) if (!eq(T(out[i]), al * y[i] * z[i])) { c.fail("vmul", "b-zero-ignores-output", fmt("element %ld", i)); break; }
+    out = x; be::vmul(al, y, z, bt, out); for (long i = 0; i < n; ++i) if (!eq(T(out[i]), al * y[i] * z[i] + bt * x[i])) { c.fail("vmul", "formula", fmt("element %ld", i)); break; }
+    poison(); be::copy(y, out); for (long i = 0; i < n; ++i) if (!eq(T(out[i]), T(y[i]))) { c.fail("copy", "formula", fmt("element %ld", i)); break; }
+    be::clear(out); for (long i = 0; i < n; ++i) if (!eq(T(out[i]), T())) { c.fail("clear", "formula", fmt("element %ld", i)); break; }
+    T ip = be::inner_product(y, z), want = T(); for (long i = 0; i < n; ++i) want += amgcl::math::inner_product(T(y[i]), T(z[i]));
+    if (!eq(ip, want)) c.fail("inner_product", "formula", "eigen vectors (conjugate-linear in the second argument)");
 }
 
 Plan generate(uint64_t seed, uint64_t run, bool thorough) {
@@ -232,7 +235,8 @@ Result execute(const Plan &p) {
                 case T_COMPLEX: run_scalar<std::complex<double> >(c); break;
                 case T_BLOCK2: case T_HYBRID: run_block(c); break;
                 case T_BLOCK_CRS: run_block_crs(c); break;
-                default: run_eigen(c); break;
+                case T_EIGEN_COMPLEX: run_eigen<std::complex<double> >(c); break;
+                default: run_eigen<double>(c); break;
             }
         } catch (const std::exception &e) { c.fail("any", "threw", e.what()); }
     });
